@@ -10,6 +10,7 @@ import (
 	"fmt"
 	"io"
 	"net"
+	"sync"
 
 	hclog "github.com/hashicorp/go-hclog"
 	"github.com/hashicorp/go-plugin/internal/grpcmux"
@@ -59,6 +60,7 @@ type GRPCServer struct {
 	config      GRPCServerConfig
 	server      *grpc.Server
 	broker      *GRPCBroker
+	brokerLock  sync.Mutex
 	stdioServer *grpcStdioServer
 
 	logger hclog.Logger
@@ -117,17 +119,22 @@ func (s *GRPCServer) Init() error {
 // grpc.Broker if present.
 func (s *GRPCServer) Stop() {
 	s.server.Stop()
-
-	if s.broker != nil {
-		s.broker.Close()
-		s.broker = nil
-	}
+	s.closeBroker()
 }
 
 // GracefulStop calls GracefulStop on the underlying grpc.Server and Close on
 // the underlying grpc.Broker if present.
 func (s *GRPCServer) GracefulStop() {
 	s.server.GracefulStop()
+	s.closeBroker()
+}
+
+// closeBroker closes the broker once. Stop and GracefulStop can be called
+// from several goroutines at the same time (each Shutdown RPC of the
+// controller service calls Stop), so the field is guarded.
+func (s *GRPCServer) closeBroker() {
+	s.brokerLock.Lock()
+	defer s.brokerLock.Unlock()
 
 	if s.broker != nil {
 		s.broker.Close()
